@@ -12,8 +12,12 @@ theorem simple_from_item_newttl_src : simple_from_item_newttl = "0" := by decide
 theorem simple_time_left_src : simple_time_left = "math.Round(float64(newTTL) - time.Since(item.when).Seconds())" := by decide
 /-- `set`: skip when the lowest TTL is 0 or the message is not cacheable; the override spares SERVFAIL (`prepStore`). -/
 theorem simple_set_conds_src : simple_set_conds = "m == nil | ttl == 0 || !isCacheable(msg) | m.overrideTTL && msg.Rcode != dns.RcodeServerFailure" := by decide
-/-- `set` keys the entry by the response message (`Simple.keyOfResp`). -/
-theorem simple_set_key_src : simple_set_key = "msg" := by decide
+/-- `set` keys the entry by the *request* (since the round-3 fix; `Simple.keyOfReq` on both sides), `get` does the same,
+and `Wrap` hands `set` the client's request together with the response. -/
+theorem simple_set_key_src : simple_set_key = "req" := by decide
+theorem simple_get_key_src : simple_get_key = "req" := by decide
+theorem simple_wrap_set_src : simple_wrap_set = "req, resp" := by decide
+theorem simple_wrap_get_src : simple_wrap_get = "req" := by decide
 theorem simple_set_expire_src : simple_set_expire = "key, i, exp" := by decide
 theorem simple_key_qtype_src : simple_key_qtype = "b[1:], q.Qtype" := by decide
 theorem simple_key_qclass_src : simple_key_qclass = "b[3:], q.Qclass" := by decide
